@@ -85,10 +85,15 @@ type ghostExit struct {
 //@   ensures err == nil ==> ite(flagstr("meter") != "", instance.Meter != nil && fresh(instance.Meter) && instance.Meter.Num >= 1 && instance.Meter.Denom >= 1, instance.Meter == old(instance.Meter))
 //@   ensures err == nil ==> ite(flagstr("key") != "", instance.Key != nil && fresh(instance.Key), instance.Key == old(instance.Key))
 
-// the dictionary (built-ins plus --attr/--chord files): read through yaml, assumed to return a dictionary or an error
-//@ func newChordMap returns (m, err)
+// the dictionary (built-ins plus --attr/--chord files): the definitions are read through yaml (assumed to give a
+// builder or an error); building and checking the dictionary from them is chord.Builder.Build, proved in C16
+//@ func newChordBuilder returns (b, err)
 //@   trusted
-//@   allocs chord.Map, map[string]chord.Attribute, map[string]chord.Chord
+//@   allocs chord.Builder, []chord.Attribute, []chord.Chord, []string
+//@   ensures err == nil ==> b != nil
+
+//@ func newChordMap returns (m, err)
+//@   allocs chord.Builder, []chord.Attribute, []chord.Chord, []string, chord.Map, map[string]chord.Attribute, map[string]chord.Chord, []Iface, map[string]bool
 //@   ensures err == nil ==> m != nil
 
 //@ iface chord.Mapper.GetChord (m, nameOrDisplay) returns (c, ok)
